@@ -90,7 +90,7 @@ func evalCases(cases []*Case, o *common.Options, rep *common.Report) error {
 		}
 		for _, f := range fails {
 			rep.Fail(f)
-			if strings.HasPrefix(f.Key, "F16:") || strings.HasPrefix(f.Key, "F17:") {
+			if strings.HasPrefix(f.Key, "F16:") || strings.HasPrefix(f.Key, "F17:") || strings.HasPrefix(f.Key, "N1:") {
 				rep.FindingsProbed[f.Key] = true
 			}
 		}
@@ -135,7 +135,7 @@ func main() {
 		// directed probes of the assigned findings first (stable keys F16:…, F17:…)
 		probes := findingProbes()
 		err = evalCases(probes, o, rep)
-		for _, k := range []string{"F16:trailer-fields-escape-filter", "F17:user-agent-invented"} {
+		for _, k := range []string{"F16:trailer-fields-escape-filter", "F17:user-agent-invented", "N1:close-after-interim-drops-final"} {
 			if _, ok := rep.FindingsProbed[k]; !ok {
 				rep.FindingsProbed[k] = false
 			}
@@ -187,7 +187,12 @@ func findingProbes() []*Case {
 	f17.Reqs = []Req{{Method: "GET", Target: "http://example.com/", HostHdr: "example.com", SendHost: true, Host: "example.com", Path: "/",
 		Headers: []HF{{K: "Accept", V: "*/*", Pad: " "}, {K: "X-Rid", V: "0", Pad: " "}}, Body: Body{Kind: "none"}}}
 	f17.Scripts = []Script{ok}
-	return []*Case{f16, f17}
+	// N1: a request with Connection: close answered by an interim and a final response
+	n1 := base()
+	n1.Reqs = []Req{{Method: "POST", Target: "http://example.com/once", HostHdr: "example.com", SendHost: true, Host: "example.com", Path: "/once", Close: true,
+		Headers: []HF{{K: "Connection", V: "close", Pad: " "}, {K: "User-Agent", V: "probe", Pad: " "}, {K: "X-Rid", V: "0", Pad: " "}}, Body: Body{Kind: "cl", Data: []byte("data")}}}
+	n1.Scripts = []Script{{Resps: []Resp{{Status: 100, Reason: "Continue", Headers: []HF{{K: "X-Resp-Id", V: "r0.0", Pad: " "}}, Body: Body{Kind: "none"}}, ok.Resps[0]}}}
+	return []*Case{f16, f17, n1}
 }
 
 func init() {
